@@ -134,6 +134,7 @@ class AsyncProtocol(Protocol, EventManager[PhysicalDevice]):
     _queues: Queues
     _entry_lock: asyncio.Lock
     _consumers: list[asyncio.Task]
+    _shutting_down: bool
 
     def __init__(
         self,
@@ -151,11 +152,18 @@ class AsyncProtocol(Protocol, EventManager[PhysicalDevice]):
         self._queues = Queues(read=asyncio.Queue(), write=asyncio.Queue())
         self._entry_lock = asyncio.Lock()
         self._consumers = []
+        self._shutting_down = False
 
     def connection_established(
         self, reader: asyncio.StreamReader, writer: asyncio.StreamWriter
     ) -> None:
         """Start frame producer and consumers."""
+        if self._shutting_down:
+            # shutdown() is past the queues and is taking the protocol apart:
+            # a reconnect attempt that succeeds now must not bring it back.
+            writer.close()
+            return
+
         self.reader = FrameReader(reader)
         self.writer = FrameWriter(writer)
         self._queues.write.put_nowait(StartMasterRequest(recipient=DeviceType.ECOMAX))
@@ -196,16 +204,22 @@ class AsyncProtocol(Protocol, EventManager[PhysicalDevice]):
     async def shutdown(self) -> None:
         """Shutdown the protocol and close the connection."""
         await self._queues.join()
-        self.cancel_tasks()
-        await self.wait_until_done()
-        if self.connected.is_set():
-            await self._connection_close()
-        else:
-            # The task handling a lost connection may have been cancelled
-            # above before it got to close the transport.
-            await self.close_writer()
+        self._shutting_down = True
+        try:
+            self.cancel_tasks()
+            await self.wait_until_done()
+            if self.connected.is_set():
+                await self._connection_close()
+            else:
+                # The task handling a lost connection may have been cancelled
+                # above before it got to close the transport.
+                await self.close_writer()
 
-        await asyncio.gather(*(device.shutdown() for device in self.data.values()))
+            await asyncio.gather(
+                *(device.shutdown() for device in self.data.values())
+            )
+        finally:
+            self._shutting_down = False
 
     async def frame_producer(
         self, queues: Queues, reader: FrameReader, writer: FrameWriter
